@@ -45,7 +45,7 @@ def _pm():
 
 
 def gen_case(rng, i):
-    force = ["src-tree", "several-platforms", None, "paths-all", "paths-none", "dashed-top-optional", None, "depth-3", "many-variants"][i % 9]
+    force = ["src-tree", "several-platforms", None, "paths-all", "paths-none", "dashed-top-optional", None, "depth-3", "many-variants", "name-carries-version", "two-dashed-top-optionals"][i % 11]
     D = F.gen_description(rng, force, hostile=(i % 3 == 0))
     # make path subsets of packages/repository/source_* diverse
     for v in F.iter_nodes(D["variants"]):
